@@ -1,5 +1,6 @@
 """C09 — k-means: one arg-min routine; all reported quantities of a fit describe one and the same state."""
 from . import layout
+from . import c07
 from .core import RuleResult
 from .facts import fn_file, fn_key, fn_loc, walk, strip, peel_refs, pat_bindings, Render
 from .sym import Tracer, Term, Cmp, k, as_term, walk_terms
@@ -163,6 +164,128 @@ def rule_argmin(ctx):
             else:
                 res.violate("%s : foreign-metric:%s" % (fn_key(f), fd["name"]), "`%s` is called with the metric `%s` instead of the model's own dist_fn: assignments then minimise a different distance than training did" % (fd["name"], arg[:60]), fn_loc(f, n["ln"]))
     return res.finish(12)
+
+
+def rule_scanexit(ctx):
+    """The arg-min over the centroids has to look at every centroid unless the current one is at distance exactly zero.
+    A scan that stops early when the (reduced) distance is merely below some threshold - a tolerance, F::epsilon() - hands
+    the observation to the first centroid under the threshold, not to the closest one; for data whose distances are all
+    below the threshold that is always the first centroid scanned."""
+    res = RuleResult("R-C09-scanexit", "a scan over the centroids that compares reduced distances is left early only when a distance is exactly zero")
+    F = ctx.facts()
+    fns = kmeans_fns(F)
+    from .layout import with_parents
+    n_scans = 0
+    for fn in fns:
+        c = fn["crate"]
+        dist_locals = set()
+        has_rd = False
+        for n in walk(fn["body"]):
+            if n.get("k") == "LetStmt" and n.get("init") is not None and any(y.get("k") == "MethodCall" and y["name"] in ("rdistance", "distance") and "Distance" in ((c.dfn(y.get("def")) or {}).get("trait") or "") for y in walk(n["init"])):
+                has_rd = True
+                if n["pat"].get("k") == "Bind":
+                    dist_locals.add(n["pat"]["local"])
+        if not has_rd:
+            continue
+        n_scans += 1
+        key = fn_key(fn)
+        exits = 0
+        for n, anc in with_parents(fn["body"]):
+            if n.get("k") != "If":
+                continue
+            if not any(a.get("k") in ("Loop", "Closure") for a in anc):
+                continue
+            cond = strip(n["c"])
+            if cond.get("k") != "Binary" or cond["op"] not in ("<", "<=", "==", ">", ">="):
+                continue
+            sides = [peel_refs(cond["l"]), peel_refs(cond["r"])]
+            di = [i for i, x in enumerate(sides) if x.get("k") == "Path" and x.get("local") in dist_locals]
+            if len(di) != 1:
+                continue
+            other = sides[1 - di[0]]
+            # does the taken branch leave the scan?
+            leaves = False
+            for y in walk(n["then"]):
+                if y.get("k") in ("Break", "Ret"):
+                    leaves = True
+            tail = strip(n["then"])
+            if tail.get("k") == "Block":
+                tail = strip(tail.get("e") or {})
+            if tail.get("k") == "Call" and strip(tail["f"]).get("k") == "Path" and (c.dfn(strip(tail["f"]).get("def")) or {}).get("name") in ("Err", "Break") and any(a.get("k") == "Closure" for a in anc):
+                # the closure of a try_fold / try_for_each: Err(..) / ControlFlow::Break(..) ends the scan
+                leaves = True
+            if not leaves:
+                continue
+            exits += 1
+            zero = (other.get("k") == "Lit" and other.get("v", "").strip("0._f3264") == "") or (other.get("k") == "Call" and not other["args"] and (c.dfn(strip(other["f"]).get("def")) or {}).get("name") == "zero")
+            op = cond["op"] if di[0] == 0 else {"<": ">", ">": "<", "<=": ">=", ">=": "<=", "==": "=="}[cond["op"]]
+            res.instance("%s : scan left when distance %s %s" % (key, op, Render(c).e(other)[:30]))
+            if zero and op in ("==", "<="):
+                res.ok()
+            else:
+                res.violate("%s : scan-exits-on-threshold" % key, "the scan over the centroids stops as soon as a distance is %s `%s`: the observation goes to the first centroid under that threshold, not to the closest one (for small-scale data every distance is under it)" % (op, Render(c).e(other)[:40]), fn_loc(fn, n["ln"]))
+        res.instance("%s : %d early exits in a distance scan" % (key, exits))
+        res.ok()
+    if n_scans == 0:
+        res.missing_anchor("k-means functions computing distances to centroids")
+    return res.finish(1)
+
+
+def rule_counts(ctx):
+    """every model a fit path returns reports counts and inertia computed from an assignment: a model literal whose
+    cluster_count is a constant array (ones / zeros / from_elem) does not describe the centroids it carries"""
+    res = RuleResult("R-C09-counts", "every KMeans literal built by fit / fit_with takes cluster_count from a computed assignment, never from a constant array")
+    F = ctx.facts()
+    n_lits = 0
+    for fn in kmeans_fns(F):
+        if fn["d"]["name"] not in ("fit", "fit_with"):
+            continue
+        c = fn["crate"]
+        inits = {}
+        for n in walk(fn["body"]):
+            if n.get("k") == "LetStmt" and n.get("init") is not None and n["pat"].get("k") == "Bind":
+                inits[n["pat"]["local"]] = n["init"]
+        from .layout import with_parents
+        for n, anc_ in with_parents(fn["body"]):
+            if n.get("k") != "Struct" or not (c.dfn(n.get("def")) or {}).get("path", "").endswith("KMeans"):
+                continue
+            n_lits += 1
+            if any(a_.get("k") in ("LetStmt", "Assign") for a_ in anc_):
+                # bound to a local first (the incremental model that fit_with goes on to update): not a returned model yet
+                res.instance("%s : KMeans literal #%d is bound to a local and updated afterwards" % (fn_key(fn), n_lits))
+                res.ok()
+                continue
+            key = fn_key(fn)
+            for f in n["fields"]:
+                if f["name"] != "cluster_count":
+                    continue
+                res.instance("%s : KMeans literal #%d cluster_count" % (key, n_lits))
+                v = peel_refs(f["e"])
+                hops = 0
+                while v.get("k") == "Path" and v.get("local") in inits and hops < 4:
+                    v = peel_refs(inits[v["local"]])
+                    hops += 1
+                const = False
+                if v.get("k") == "Call":
+                    d = c.dfn(strip(v["f"]).get("def")) if strip(v["f"]).get("k") == "Path" else None
+                    if d and d["krate"] == "ndarray" and d["name"] in ("ones", "zeros", "from_elem", "default") and not any(y.get("k") == "Path" and "local" in y and y["local"] in inits and any(z.get("k") == "MethodCall" for z in walk(inits[y["local"]])) and False for y in walk(v)):
+                        # a constant array is fine as the *start* of an accumulation; as the field value itself it is not
+                        const = f["e"] is not None and peel_refs(f["e"]) is v or True
+                        # was the local mutated (counts accumulated into it) before the literal?
+                        root = peel_refs(f["e"])
+                        if root.get("k") == "Path" and "local" in root:
+                            for y in walk(fn["body"]):
+                                if y.get("k") in ("AssignOp", "Assign") and any(z.get("k") == "Path" and z.get("local") == root["local"] for z in walk(y["l"])):
+                                    const = False
+                                if y.get("k") == "Ref" and y.get("mut") and peel_refs(y["e"]).get("local") == root["local"]:
+                                    const = False
+                if const:
+                    res.violate("%s : constant-cluster-count" % key, "a model is returned whose cluster_count is the constant array `%s`: it is not the number of observations the returned centroids attract (duplicated observations all go to the first of identical centroids)" % Render(c).e(v)[:40], fn_loc(fn, n["ln"]))
+                else:
+                    res.ok()
+    if n_lits < 2:
+        res.missing_anchor("KMeans literals in fit / fit_with (found %d)" % n_lits)
+    return res.finish(2)
 
 
 def fit_fn(res, F):
@@ -492,4 +615,4 @@ def rule_incumbent(ctx):
 
 
 def rules(tier):
-    return [rule_argmin, rule_best, rule_fresh, rule_init, rule_memorder, rule_incumbent]
+    return [rule_argmin, rule_best, rule_fresh, rule_init, rule_memorder, rule_incumbent, c07.rule_degree, rule_scanexit, rule_counts]
